@@ -8,7 +8,7 @@
      lk      launcher holding the file lock (0 = free)       path   worker whose socket inode the path names (0 = none)
      wo      per worker: is its listening socket open        ic     per worker: inode class (smallest worker number
      res     per launcher: "none" | "path" | "error"                with the same st_ino; 0 = not bound yet)
-   Registers: tid -> furthest event matched; 100000+tid -> clauses violated in a matched state.                  *)
+   Registers: 2*tid -> furthest event matched; 2*tid+1 -> clauses violated in a matched state.                  *)
 EXTENDS Launcher, Sequences, Json, IOUtils, TLCExt
 Traces == JsonDeserialize(IOEnv.TRACE_FILE)
 VARIABLES tid, l
@@ -43,9 +43,9 @@ Bad == {c \in {"AtMostOneServing", "SpawnOnlyIfNoneAlive", "ReturnedAccepting"} 
           \/ (c = "AtMostOneServing" /\ ~AtMostOneServing)
           \/ (c = "SpawnOnlyIfNoneAlive" /\ ~SpawnOnlyIfNoneAlive)
           \/ (c = "ReturnedAccepting" /\ ~ReturnedAccepting)}
-Track == /\ TLCSet(tid, IF TLCGet(tid) < l THEN l ELSE TLCGet(tid))
-         /\ TLCSet(100000 + tid, TLCGet(100000 + tid) \cup Bad)
-ASSUME \A i \in 1..Len(Traces) : TLCSet(i, 0) /\ TLCSet(100000 + i, {})
+Track == /\ TLCSet(2 * tid, IF TLCGet(2 * tid) < l THEN l ELSE TLCGet(2 * tid))
+         /\ TLCSet(2 * tid + 1, TLCGet(2 * tid + 1) \cup Bad)
+ASSUME \A i \in 1..Len(Traces) : TLCSet(2 * i, 0) /\ TLCSet(2 * i + 1, {})
 Verdicts == \A i \in 1..Len(Traces) :
-   PrintT("@@J@@" \o ToJson([tid |-> i, matched |-> TLCGet(i) - 1, len |-> Len(Traces[i].ev), bad |-> TLCGet(100000 + i)]))
+   PrintT("@@J@@" \o ToJson([tid |-> i, matched |-> TLCGet(2 * i) - 1, len |-> Len(Traces[i].ev), bad |-> TLCGet(2 * i + 1)]))
 =========================================================================================
